@@ -262,7 +262,8 @@ func (s asciiString) Equals(other Value) bool {
 		if o1, e := s._toInt(strings.TrimSpace(string(s))); e == nil {
 			return o1 == int64(o)
 		}
-		return false
+		// not in integer syntax ("1e3", "-0", "5.0")
+		return s.ToFloat() == float64(o)
 	}
 
 	if o, ok := other.(valueFloat); ok {
